@@ -460,6 +460,8 @@ static Type *declspec(Token **rest, Token *tok, VarAttr *attr) {
         align = typename(&tok, tok)->align;
       else
         align = const_expr(&tok, tok);
+      if (align < 0 || (align & (align - 1)))
+        error_tok(tok, "alignment is not a power of two");
       if (align > attr->align)
         attr->align = align;
       tok = skip(tok, ")");
